@@ -16,7 +16,8 @@ Instrumented are exactly the pool sites of kcp.go (`Gen.poolSites`):
   `newSegment` (Send: get), the stream-mode append of Send (write into the last queued segment's
   buffer: use), `recycleSegment` — guarded by `data != nil`, here `buf ≠ none` — in Recv (after the
   copy-out: use, put), in parse_ack (put, `data = nil`, the segment stays in snd_buf), in parse_una
-  (put only if not yet recycled), `parse_data` (get for the copy of a NEW segment, nothing for a
+  (put only if not yet recycled; `shrink_buf` pops acked head segments without a pool call),
+  `parse_data` (get for the copy of a NEW segment, nothing for a
   duplicate), and phase 5 of flush (reads `segment.data` of the segments it transmits: use; acked
   segments are skipped; the `use` events of a flush are exactly the segments the model's phase 5
   decides to send, and the harness checks them against the PUSH segments on the wire).
@@ -55,6 +56,12 @@ def Ghost.recycle (g : Ghost) : Option Nat → Ghost
 /-- the bytes of `seg.data` are read or written -/
 def Ghost.use (g : Ghost) : Option Nat → Ghost
   | some id => { g with log := g.log ++ [.use id] }
+  | none => g
+
+/-- a segment leaves a queue WITHOUT `recycleSegment` (`snd_buf.Pop()` in `shrink_buf`): if it still
+held a buffer, the buffer would be dropped — left to the garbage collector, never recycled -/
+def Ghost.drop (g : Ghost) : Option Nat → Ghost
+  | some id => { g with lost := id :: g.lost }
   | none => g
 
 /-- `Get()[:size]` with `size > cap`: the buffer is acquired, the slice expression panics, nobody holds it -/
@@ -178,6 +185,14 @@ def unaO (una : U32) : List SegO → Ghost → SegsG
   | x :: rest, g =>
     if itimediff una x.s.sn > 0 then unaO una rest (g.recycle x.buf) else ⟨x :: rest, g⟩
 
+/-- the pop loop of `shrink_buf` (sender-wedge repair): the individually acknowledged segments at the
+head of snd_buf leave it by `Pop()` — no `recycleSegment` here: `parse_ack` has recycled their payload
+when it marked them (`data == nil`; `C15_core_aligned` shows every acked segment of snd_buf has given
+its buffer back, so nothing is ever dropped by this loop) -/
+def dropAckedO : List SegO → Ghost → SegsG
+  | [], g => ⟨[], g⟩
+  | x :: rest, g => if x.s.acked then dropAckedO rest (g.drop x.buf) else ⟨x :: rest, g⟩
+
 /-- the loop of `parse_ack`: `seg.acked = 1; recycleSegment(seg)`, the segment stays in snd_buf -/
 def ackLoopO (sn : U32) : List SegO → Ghost → SegsG
   | [], g => ⟨[], g⟩
@@ -223,11 +238,13 @@ def inBodyO (regular : Bool) (data : Bytes) (st : InLoopO) : InLoopO :=
   let cmd := BitVec.ofNat 8 (byteAt data 4)
   let sn := rd32 data 12
   let m1 := inSt1 regular (rd16 data 6) (rd32 data 16) st.m
-  let u := unaO (rd32 data 16) st.sb st.gh                  -- parse_una
+  let u0 := unaO (rd32 data 16) st.sb st.gh                 -- parse_una
+  let u := dropAckedO u0.l u0.g                             -- shrink_buf
   let m' := inBody regular data st.m
   if cmd.toNat = IKCP_CMD_ACK then
-    -- parse_ack; then parse_fastack bumps `fastack` in place
-    let a := if itimediff sn m1.k.snd_una < 0 ∨ itimediff sn m1.k.snd_nxt ≥ 0 then u else ackLoopO sn u.l u.g
+    -- parse_ack, shrink_buf; then parse_fastack bumps `fastack` in place
+    let a0 := if itimediff sn m1.k.snd_una < 0 ∨ itimediff sn m1.k.snd_nxt ≥ 0 then u else ackLoopO sn u.l u.g
+    let a := dropAckedO a0.l a0.g
     { st with m := m', sb := reattach m'.k.snd_buf a.l, gh := a.g }
   else if cmd.toNat = IKCP_CMD_PUSH then
     if itimediff sn (m1.k.rcv_nxt + m1.k.rcv_wnd) < 0 ∧ itimediff sn m1.k.rcv_nxt ≥ 0 then
